@@ -140,6 +140,20 @@ def run(ctx):
         run.instance(R2, {"fn": "LMDBBackend::next_child", "obligation": "path built from the index before `+= 1`; saved index is the bumped one"}, held=held)
         if not held:
             run.finding(Finding(R2, nc, "next_child no longer returns the pre-increment index / saves the bumped one", site=f.loc()))
+        # one account throughout: the counter that is read, the path that is built and the counter that is
+        # saved belong to the same account operand
+        accts = []
+        for b, t in f.calls():
+            n_ = t.get("f") or ""
+            if n_ == "grin_keychain::types::Identifier::to_bytes" or n_ == "grin_keychain::types::Identifier::to_path":
+                accts.append((n_.split("::")[-1], frozenset(vf.producers(f, t["a"][0]))))
+            elif n_ == c.WOB + "save_child_index":
+                accts.append(("save_child_index", frozenset(vf.producers(f, t["a"][1]))))
+        kinds = {k for k, _p in accts}
+        held = kinds == {"to_bytes", "to_path", "save_child_index"} and len({p_ for _k, p_ in accts}) == 1
+        run.instance(R2, {"fn": "LMDBBackend::next_child", "obligation": "counter read, path built and counter saved for one and the same account", "operands": [(k, sorted(map(str, p_))) for k, p_ in accts]}, held=held)
+        if not held:
+            run.finding(Finding(R2, nc, "next_child reads / derives / bumps under different accounts (the counter of one account, the path of another): paths get handed out twice", site=f.loc()))
         sm = [n for n, p, a in f.vars if n == "self" and a == 1]
         held = bool(sm) and f.locals[1]["ty"].startswith("&mut")
         run.instance(R2, {"fn": "LMDBBackend::next_child", "obligation": "takes &mut self (no two concurrent callers on one backend)"}, held=held)
